@@ -28,3 +28,4 @@ PROP = {
                                  "Transpose_Lists is called with a non-empty outer list; the standard-error clause is judged where the spread exceeds 1e-6 of the largest |value|"],
 }
 PROP["level_text"] += ' Grids also run over ranges scaled by 2^+-40..160 and starting at zero, data sets with offsets up to 1e5 sigma, lists with zeros of either sign and NaN, Range(max) for negative max.'
+PROP["level_text"] += " Weighted_Average must leave the caller's list as it was (bit for bit, and a second call returns the same); ranges narrow relative to their position, subnormal data, the median between the central order statistics."
